@@ -1,5 +1,5 @@
 (* C14: a dictionary file is only ever opened as the variant that wrote it. *)
-From X Require Import Base Arr Dac Trie Serial SerialFacts Examples.
+From X Require Import LayoutGen LayoutFacts Base Arr Dac Trie Serial SerialFacts Examples.
 Local Open Scope N_scope.
 
 Theorem C14_mismatch : forall a b P, a <> b ->
@@ -21,9 +21,15 @@ Theorem C14_unopenable_write : forall v P target l,
   (target = NoParent \/ target = Dir -> forall lim, fs_save v P target lim = Exc OpenFail).
 Proof. exact fs_save_spec. Qed.
 
+(* the member order and types of every visit() in the current headers are the ones Serial.v models
+   (LayoutGen.v is regenerated from the source on every run) *)
+Theorem C14_layout_is_the_modelled_one : layouts_now = layouts_modelled.
+Proof. exact layout_is_the_modelled_one. Qed.
+
 Example C14_nonvacuous : load V16 (ex_bytes V8) = Exc TypeMismatch /\ load V7 (ex_bytes V15) = Exc TypeMismatch /\
                          get_type_id (ex_bytes V15) = Ok 15.
 Proof. vm_compute. repeat split; reflexivity. Qed.
 
 Print Assumptions C14_mismatch. Print Assumptions C14_own_variant. Print Assumptions C14_own_variant_mmap.
 Print Assumptions C14_type_id. Print Assumptions C14_unopenable_read. Print Assumptions C14_unopenable_write.
+Print Assumptions C14_layout_is_the_modelled_one.
